@@ -26,10 +26,10 @@ FRB = 'glue.core.fixed_resolution_buffer.compute_fixed_resolution_buffer'
 def run(ctx):
     ix = ctx.index
     f = ix.func(FRB)
-    rule_a(ctx, ix, f)
-    rule_b(ctx, ix, f)
-    rule_c(ctx, ix, f)
-    rule_d(ctx, ix)
+    ctx.guard(rule_a, ctx, ix, f)
+    ctx.guard(rule_b, ctx, ix, f)
+    ctx.guard(rule_c, ctx, ix, f)
+    ctx.guard(rule_d, ctx, ix)
 
 
 def _names(expr, func_node=None, _depth=0):
@@ -99,6 +99,17 @@ def rule_a(ctx, ix, f):
               detail_absent='the stored key no longer replaces the bounds by their wildcard form: the cache never matches again when '
                             'slicing through a cube (or matches with stale bounds)',
               shape='; '.join(unparse(u.value) for u in upd), where=f.where)
+    g = ix.func('glue.core.fixed_resolution_buffer.bounds_for_cache')
+    wc = [c for c in calls_in(g.node) if call_name(c) == 'AnyScalar']
+    if len(wc) != 1:
+        raise AnalysisError('bounds_for_cache: the wildcard substitution is not recognised')
+    from ..util import guard_chain as _gc
+    pmg = parent_map(g.node)
+    tests = ' and '.join(unparse(t.test) for t, br in _gc(pmg, wc[0], g.node) if isinstance(t, ast.If) and br == 'body')
+    ctx.ob(R, g.construct, 'only scalar bounds of non-contributing axes become wildcards', 'isscalar(' in tests and 'not in' in tests,
+           detail='bounds_for_cache substitutes the wildcard under `%s`: a ranged bound on a non-contributing axis is stored as a '
+                  'wildcard, and a later request with a scalar there is answered with the array of the ranged request (another shape)'
+                  % tests, where=g.where)
     for st in keys:
         ctx.ob(R, f.construct + ' bounds slot', 'bounds is the second element of the key (the slot the wildcard replaces)',
                unparse(st.value.elts[1]) == 'bounds', detail='bounds is not at index 1 of %s' % unparse(st.value), where=where(f, st),
